@@ -94,8 +94,11 @@ def oracle_handoff(sched):
         if e["kind"] == "fetch" and e.get("status") == 200:
             fetched_tok[e["tok"]] = e["id"]
     for r in sched["results"]:
-        if not r.get("err") and not r.get("canceled") and r["tok"] not in fetched_tok:
-            res.append(("id-never-handed", "client %d completed but its ID never appeared in a pending list" % r["c"], {"schedule_index": sched["index"], "client": r}))
+        if not r.get("canceled") and r["tok"] not in fetched_tok:
+            res.append(("id-never-handed", "the request of client %d (of %d released together) was never fetched: its ID did not appear in any pending-list reply (%s)" % (
+                r["c"], sched["clients"], "client got no response" if r.get("err") else "client completed"),
+                {"driver": "TestVerifServerSchedules", "schedule_index": sched["index"], "clients": sched["clients"], "pollers": sched["pollers"], "client": r,
+                 "reply_sizes": sorted(collections.Counter(e.get("batch", 0) for e in sched["events"] if e["kind"] == "hand").values(), reverse=True)[:5]}))
     return res
 
 
